@@ -199,6 +199,10 @@ impl RtrStream {
         keepalive: Option<Duration>,
         server_metrics: &RtrServerMetrics,
     ) -> Result<Self, io::Error> {
+        #[cfg(feature = "verif-hooks")]
+        if crate::verif::fail_rtr_setup() {
+            return Err(io::Error::other("verif: forced setup failure"))
+        }
         if let Some(duration) = keepalive {
             Self::set_keepalive(&sock, duration)?
         }
